@@ -14,6 +14,7 @@ func init() {
 	register(&Property{
 		ID: "C15",
 		Explanation: "Decides in the built-in codecs (byte stream, text, JSON, XML, YAML): R15.1 every read/write/marshal error reaches the closure's return (nothing is shortened to success; only the deferred closers' errors are discarded); " +
+			"Round 12: R15.1 a producer's format string is a constant, and a later call's error is merged into the variable of an earlier one only behind err == nil; R15.2 producer and consumer of a pair test for the same encoding.* family. " +
 			"R15.2 the stream's Close is taken only under the closing option and is deferred before any I/O, and a closable source payload gets its Close deferred before any I/O on it, whatever its other interfaces; R15.3 reflect validity typestate: a reflect.Value obtained by Indirect/Elem is used (Type, Set*, Bytes, Len …) only under IsValid() — a typed nil pointer is a non-nil interface, so `data != nil` does not discharge it; " +
 			"R15.4 nil reader/writer/data are refused before use; R15.5 no aliasing: the bytes stored into a destination come from a buffer private to the call; R15.6 the JSON consumer preserves numbers (UseNumber) and the producer does not HTML-escape; the YAML encoder is closed. " +
 			"R15.2 also: the text producer asks for encoding.TextMarshaler before any other interface of the value (sibling of the consumer's TextUnmarshaler-first). " +
